@@ -86,7 +86,7 @@ def gen_harness(u, t):
 def build(ctx):
     hs = []
     ctx.assumptions = ["choice index n < width (the property's domain); b in {0,1}; all underlying values, all indices symbolic"]
-    for std in hgen.stds(ctx):
+    for std in hgen.stds(ctx, quick=("11", "14", "17", "20")):
         u = ctx.lower("c15k", kernel_cpp(), std=std, mode="unchecked")
         for p, (ct, h, w) in CT.items():
             hs.append(P.Harness("kernel_%s_cxx%s" % (h, std), kernel_harness(u, h, w), [u], unwind=2,
